@@ -285,6 +285,6 @@ def check_any(ctx, case):
 
 FAMILIES = [
     Family('exhaustive', check_any, enumerate=enum_cases),
-    Family('random', check_any, strategy=lambda tier: random_pair(), n=(6000, 200000)),
+    Family('random', check_any, strategy=lambda tier: random_pair(), n=(15000, 200000)),
     Family('malformed', check_any, strategy=lambda tier: malformed(), n=(1500, 30000)),
 ]
